@@ -178,7 +178,12 @@ def run_shard(ctx, p):
                 if len(tasks) > 1:
                     rec.violation('exactly_once_output', 'two-writers', '%s %s: output %s opened for writing by tasks %s' % (conv, tag, os.path.basename(path), sorted(tasks)),
                                   dict(w, path=os.path.basename(path), tasks=sorted(tasks)))
-            observed[tag] = {'results': res['results'], 'tree': read_tree(spec['dir_out']) if os.path.isdir(spec['dir_out']) else {}}
+            written_by = collections.defaultdict(list)
+            for path, tasks in ev['writers'].items():
+                for t in tasks:
+                    written_by[t].append(os.path.relpath(path, spec['dir_out']))
+            observed[tag] = {'results': res['results'], 'tree': read_tree(spec['dir_out']) if os.path.isdir(spec['dir_out']) else {},
+                             'written_by': written_by}
             if mode == 'mp':
                 orders.add(tuple(ev['order']))
                 assignments.add(tuple(sorted((k, tuple(v)) for k, v in ev['pids'].items())))
@@ -214,7 +219,7 @@ def run_shard(ctx, p):
                 if f['kind'].startswith('valid:' + conv):
                     rec.mon('valid_files_converted')
                     r = ref['results'].get(f['name'])
-                    outs = [k for k in ref['tree'] if k.startswith(os.path.splitext(f['name'])[0] + '_') or k.startswith(f['name'] + '_')]
+                    outs = sorted(k for k in ref['written_by'].get(f['name'], []) if k in ref['tree'])
                     if r is None or r['exception'] or r['ignored'] or r['las_count'] < 1 or (f.get('expect_las') is not None and r['las_count'] != f['expect_las']) or len(outs) != r['las_count']:
                         rec.violation('valid_files_converted', 'valid-not-converted', '%s: valid file %s -> %s, outputs %s (expected %s LAS files)' % (conv, f['name'], r, outs, f.get('expect_las')),
                                       {'converter': conv, 'file': f['name'], 'kind': f['kind'], 'result': r, 'outputs': outs, 'expect_las': f.get('expect_las'), 'input': f['data'], 'options': opts})
